@@ -249,7 +249,29 @@ def specialize(model: Model, func: FuncInfo, oracle: t.Callable[[ast.expr], t.Op
     return FuncInfo(func.name, func.qualname, func.module, node, func.cls, func.parent)
 
 
+_R4_CACHE: t.Dict[str, t.Any] = {}
+
+
 def rule_c05_r4(model: Model) -> RuleResult:
+    """Memoised by the text of the modules the rule consults (pane/field.py): the in-memory self-test runs it on hundreds of
+    variants that leave that file alone."""
+    import hashlib
+    key = hashlib.sha256(model.module('pane.field').src.encode('utf-8')).hexdigest()
+    hit = _R4_CACHE.get(key)
+    if hit is not None:
+        if isinstance(hit, Exception):
+            raise hit
+        return copy.deepcopy(hit)
+    try:
+        res = _rule_c05_r4(model)
+    except AnalysisError as e:
+        _R4_CACHE[key] = e
+        raise
+    _R4_CACHE[key] = copy.deepcopy(res)
+    return res
+
+
+def _rule_c05_r4(model: Model) -> RuleResult:
     r = RuleResult('C05-R4', 'a field\'s library-derived output name is one of its input names, for every naming configuration', floor=16)
     f = model.func('pane.field.FieldSpec.make_field')
     r.analysed.add(f.qualname)
